@@ -104,7 +104,7 @@ Example C19_in_range_nonvacuous :
   let rloc := [mkPart 800 1000 1; mkPart 0 300 1] in
   wf_region 1000 rloc /\ wf_feat_ring 1000 f /\ contains rloc (floc f) = true /\ core_wf 1000 f /\
   add_area_from_feature rloc 1000 (extend_over_origin rloc 1000 true) 2 ([], 0) f
-  = Ok ([mkArea K_Proto 950 1030 900 1100 2 0 1], 0).
+  = Ok ([mkArea K_Proto 950 1030 900 1100 2 0 1 0], 0).
 Proof.
   cbv zeta. split.
   - right. exists (mkPart 800 1000 1), (mkPart 0 300 1). cbn. repeat split; lia.
@@ -133,12 +133,12 @@ Print Assumptions C19_in_range_core_protocluster.
    whole-record region the core stays on its own half *)
 Example C19_core_side_witness_repaired :
   add_area_from_feature witness_region 1000 (extend_over_origin witness_region 1000 true) 0 ([], 0) witness_proto
-  = Ok ([mkArea K_Proto 200 300 100 1050 0 0 1], 0) /\
+  = Ok ([mkArea K_Proto 200 300 100 1050 0 0 1 0], 0) /\
   add_area_from_feature (floc witness_proto_mirror) 1000 (extend_over_origin (floc witness_proto_mirror) 1000 true)
                         0 ([], 0) witness_proto_mirror
-  = Ok ([mkArea K_Proto 1600 1700 900 1800 0 0 1], 0) /\
+  = Ok ([mkArea K_Proto 1600 1700 900 1800 0 0 1 0], 0) /\
   add_area_from_feature [mkPart 0 1000 1] 1000 (extend_over_origin [mkPart 0 1000 1] 1000 true) 0 ([], 0) witness_proto
-  = Ok ([mkArea K_Proto 200 300 100 1000 0 1 1; mkArea K_Proto 0 0 0 50 0 1 0], 1).
+  = Ok ([mkArea K_Proto 200 300 100 1000 0 1 1 0; mkArea K_Proto 0 0 0 50 0 1 0 0], 1).
 Proof. repeat split; vm_compute; reflexivity. Qed.
 
 (* formerly C19_in_range_candidate_refuted (finding candidate_end_unshifted, repaired): for EVERY
@@ -156,9 +156,9 @@ Print Assumptions C19_in_range_candidate.
    (was start 100, end 50 with neighbouring_end 1050; split: a half with start = end = 0) *)
 Example C19_candidate_witness_repaired :
   add_area_from_feature witness_region 1000 (extend_over_origin witness_region 1000 true) 0 ([], 0) witness_cand
-  = Ok ([mkArea K_Cand 100 1050 100 1050 0 0 1], 0) /\
+  = Ok ([mkArea K_Cand 100 1050 100 1050 0 0 1 0], 0) /\
   add_area_from_feature [mkPart 0 1000 1] 1000 (extend_over_origin [mkPart 0 1000 1] 1000 true) 0 ([], 0) witness_cand
-  = Ok ([mkArea K_Cand 100 1000 100 1000 0 1 1; mkArea K_Cand 0 50 0 50 0 1 1], 1).
+  = Ok ([mkArea K_Cand 100 1000 100 1000 0 1 1 0; mkArea K_Cand 0 50 0 50 0 1 1 0], 1).
 Proof. repeat split; vm_compute; reflexivity. Qed.
 
 (* at the observation point: every area returned by build_area_rows has its extent inside the announced
@@ -193,7 +193,7 @@ Example C19_build_chain_nonvacuous :
   Forall (feat_ok_core 1000 true witness_region) [witness_cand] /\
   Forall (feat_ok_core 1000 true witness_region) [witness_proto] /\
   build_area_rows witness_region 1000 true [] [witness_cand] [witness_proto]
-  = Ok [mkArea K_Cand 100 1050 100 1050 0 0 1; mkArea K_Proto 200 300 100 1050 2 0 1].
+  = Ok [mkArea K_Cand 100 1050 100 1050 0 0 1 0; mkArea K_Proto 200 300 100 1050 2 0 1 0].
 Proof.
   split; [|split; [|vm_compute; reflexivity]].
   - constructor; [|constructor]. split; [split; [apply witness_feat_wf; reflexivity|split; [vm_compute; reflexivity|auto]]|].
@@ -265,13 +265,13 @@ Example C19_build_complete_nonvacuous :
   wf_region 1000 ex_whole /\
   Forall (feat_ok 1000 true ex_whole) [ex_s0; ex_s1; ex_s2; ex_s3] /\ Forall (feat_ok 1000 true ex_whole) [ex_p0] /\
   build_area_rows ex_whole 1000 true [ex_s0; ex_s1; ex_s2; ex_s3] [] [ex_p0]
-  = Ok [mkArea K_Sub 0 100 0 100 0 0 1; mkArea K_Sub 300 600 300 600 0 0 3; mkArea K_Sub 40 960 40 960 2 0 2;
-        mkArea K_Sub 900 1000 900 1000 4 1 4; mkArea K_Sub 0 50 0 50 4 1 4;
-        mkArea K_Proto 1000 1000 950 1000 6 2 0; mkArea K_Proto 10 30 0 80 6 2 7] /\
+  = Ok [mkArea K_Sub 0 100 0 100 0 0 1 0; mkArea K_Sub 300 600 300 600 0 0 3 2; mkArea K_Sub 40 960 40 960 2 0 2 1;
+        mkArea K_Sub 900 1000 900 1000 4 1 4 3; mkArea K_Sub 0 50 0 50 4 1 4 3;
+        mkArea K_Proto 1000 1000 950 1000 6 2 0 0; mkArea K_Proto 10 30 0 80 6 2 7 0] /\
   drawn 1000 0 [ex_s0; ex_s2; ex_s1; ex_s3; ex_p0]
-        [mkArea K_Sub 0 100 0 100 0 0 1; mkArea K_Sub 300 600 300 600 0 0 3; mkArea K_Sub 40 960 40 960 2 0 2;
-         mkArea K_Sub 900 1000 900 1000 4 1 4; mkArea K_Sub 0 50 0 50 4 1 4;
-         mkArea K_Proto 1000 1000 950 1000 6 2 0; mkArea K_Proto 10 30 0 80 6 2 7] 2.
+        [mkArea K_Sub 0 100 0 100 0 0 1 0; mkArea K_Sub 300 600 300 600 0 0 3 2; mkArea K_Sub 40 960 40 960 2 0 2 1;
+         mkArea K_Sub 900 1000 900 1000 4 1 4 3; mkArea K_Sub 0 50 0 50 4 1 4 3;
+         mkArea K_Proto 1000 1000 950 1000 6 2 0 0; mkArea K_Proto 10 30 0 80 6 2 7 0] 2.
 Proof.
   assert (Hs : forall f p, floc f = [p] -> 0 <= ps p -> ps p < pe p -> pe p <= 1000 -> feat_ok 1000 true ex_whole f).
   { intros f p E H0 H1 H2. split; [left; exists p; auto|]. split; [|auto].
@@ -301,8 +301,8 @@ Example C19_build_rows_disjoint_nonvacuous :
   let t2 := mkFeat 2 K_Sub [mkPart 950 1000 1; mkPart 0 30 1] None false 3 in
   wf_region 1000 rloc /\ Forall (feat_ok 1000 true rloc) [t0; t1; t2] /\
   build_area_rows rloc 1000 true [t0; t1; t2] [] []
-  = Ok [mkArea K_Sub 1010 1050 1010 1050 0 0 1; mkArea K_Sub 800 900 800 900 0 0 2;
-        mkArea K_Sub 950 1030 950 1030 2 0 3].
+  = Ok [mkArea K_Sub 1010 1050 1010 1050 0 0 1 0; mkArea K_Sub 800 900 800 900 0 0 2 1;
+        mkArea K_Sub 950 1030 950 1030 2 0 3 2].
 Proof.
   cbv zeta. split; [right; exists (mkPart 800 1000 1), (mkPart 0 50 1); cbn; repeat split; lia|].
   split; [|vm_compute; reflexivity].
@@ -432,3 +432,94 @@ Proof.
   repeat split.
 Qed.
 
+
+(* ---------- third deepening pass: the protoclusters of a region are a set of OBJECTS; drawn exactly once by
+   identity; halves linked pairwise ---------- *)
+
+(* Region.get_unique_protoclusters (set built from candidate.protoclusters of every candidate cluster, then the
+   sort): the result holds every protocluster object of every candidate cluster exactly once - no identity
+   twice, nothing that is not a member, every member's identity present - whatever the order of the set and
+   whatever else the protoclusters have in common (extent, product, core).  members = the protoclusters of the
+   candidate clusters concatenated, a shared one occurring several times; fid = object identity. *)
+Theorem C19_unique_protoclusters_by_identity : forall rloc order members,
+  let u := get_unique_protoclusters rloc order members in
+  NoDup (map fid u) /\ (forall x, In x u -> In x members) /\ (forall x, In x members -> In (fid x) (map fid u)).
+Proof. exact get_unique_by_identity. Qed.
+Print Assumptions C19_unique_protoclusters_by_identity.
+
+(* distinct objects are never collapsed: when no object is shared the result is a permutation of the members,
+   also when two of them have the same extent and product (seed C19-seed5), or agree in everything *)
+Theorem C19_unique_protoclusters_keeps_distinct : forall rloc order members,
+  NoDup (map fid members) -> Permutation (get_unique_protoclusters rloc order members) members.
+Proof. exact get_unique_keeps_distinct. Qed.
+Print Assumptions C19_unique_protoclusters_keeps_distinct.
+
+(* "every protocluster, candidate cluster and subregion of the region is drawn exactly once, or as two linked
+   halves", from the Region object: the output of build_area_rows is, object by object (relation drawn_id: as
+   drawn, and every area carries the identity of its object - kind and tool string, for a candidate cluster kind
+   and number), the areas of a permutation of: the drawn candidate clusters, the sub-regions, and the
+   protoclusters of the candidate clusters de-duplicated by identity.  No hypothesis. *)
+Theorem C19_region_drawn_exactly_once : forall rloc N circ subs cands order members out,
+  build_area_rows_region rloc N circ subs cands order members = Ok out ->
+  exists fs g', Permutation fs (expected_features subs cands members) /\ drawn_id N 0 fs out g'.
+Proof. exact region_complete. Qed.
+Print Assumptions C19_region_drawn_exactly_once.
+
+(* halves are linked PAIRWISE: a non-zero group value of the output occurs on exactly two areas (the two halves of
+   one object, by the theorem above), never on the halves of two objects (seed C19-seed6).  No hypothesis. *)
+Theorem C19_groups_linked_pairwise : forall rloc N circ subs cands order members out,
+  build_area_rows_region rloc N circ subs cands order members = Ok out ->
+  forall a, In a out -> a_group a <> 0 -> group_size (a_group a) out = 2.
+Proof. exact region_groups_pairwise. Qed.
+Print Assumptions C19_groups_linked_pairwise.
+
+(* soundness link of the two tests the harness evaluates on every implementation output: on the model's output
+   both are true.  identity_ok: for every expected object the areas with its kind and identity are exactly one
+   area without group, or exactly two with one non-zero group, the same height, [.., N) and [0, ..), and no area
+   belongs to anything else; groups_pairwise: every non-zero group value occurs exactly twice.  Hypothesis ids_wf:
+   the kinds are what the lists say and the harness numbered sub-regions and candidate clusters distinctly. *)
+Theorem C19_region_identity_decidable : forall rloc N circ subs cands order members out,
+  ids_wf subs cands members ->
+  build_area_rows_region rloc N circ subs cands order members = Ok out ->
+  identity_ok N (expected_features subs cands members) out = true /\ groups_pairwise out = true.
+Proof. exact region_identity_decidable. Qed.
+Print Assumptions C19_region_identity_decidable.
+
+(* non-vacuity, the layout of seed C19-seed5: two distinct protoclusters with the same extent and product and
+   different cores, each reached through two candidate clusters.  Both are kept and drawn; the output the seeded
+   code produces (the second one missing) is rejected by identity_ok and by the count per kind *)
+Example C19_region_once_nonvacuous :
+  ids_wf [] ex5_cands ex5_members /\
+  map fid (get_unique_protoclusters ex5_whole [2; 1; 3] ex5_members) = [1; 2; 3] /\
+  (exists out, build_area_rows_region ex5_whole 12000 false [] ex5_cands [2; 1; 3] ex5_members = Ok out /\
+     map a_tool out = [0; 1; 2; 3] /\
+     identity_ok 12000 (expected_features [] ex5_cands ex5_members) out = true /\
+     identity_ok 12000 (expected_features [] ex5_cands ex5_members)
+                 (filter (fun a => negb (a_tool a =? 2)) out) = false /\
+     count_drawn 12000 K_Proto (filter (fun a => negb (a_tool a =? 2)) out) = Some 2).
+Proof.
+  split.
+  { unfold ids_wf. repeat split; try (repeat constructor; fail).
+    - repeat (constructor; [cbn; intuition discriminate|]). constructor. }
+  split; [vm_compute; reflexivity|].
+  eexists. split; [vm_compute; reflexivity|]. repeat split; vm_compute; reflexivity.
+Qed.
+
+(* non-vacuity, the layout of seed C19-seed6: a whole-record region, two origin-crossing protoclusters with the same
+   extent: four halves under the groups 2, 2, 3, 3 (group 1: the candidate cluster).  With one group value on all
+   four halves (what the seeded code emits) groups_pairwise is false, while the walk count_drawn still accepts *)
+Example C19_groups_pairwise_nonvacuous :
+  ids_wf [ex6_s1] [ex6_c1] [ex6_p1; ex6_p2] /\
+  exists out, build_area_rows_region ex6_whole 1000 true [ex6_s1] [ex6_c1] [2; 1] [ex6_p1; ex6_p2] = Ok out /\
+     map a_group out = [1; 1; 0; 2; 2; 3; 3] /\
+     identity_ok 1000 (expected_features [ex6_s1] [ex6_c1] [ex6_p1; ex6_p2]) out = true /\
+     groups_pairwise out = true /\
+     let seeded := map (fun a => if a_kind a =? K_Proto then set_group a 2 else a) out in
+     groups_pairwise seeded = false /\ count_drawn 1000 K_Proto seeded = Some 2.
+Proof.
+  split.
+  { unfold ids_wf. repeat split; try (repeat constructor; fail).
+    - repeat (constructor; [cbn; intuition discriminate|]). constructor.
+    - repeat (constructor; [cbn; intuition discriminate|]). constructor. }
+  eexists. split; [vm_compute; reflexivity|]. repeat split; vm_compute; reflexivity.
+Qed.
